@@ -700,3 +700,29 @@ impl<'a> Display for MatchedParam<'a> {
         }
     }
 }
+
+//------------ Verification hooks (feature `verif-hooks`, add-only) ----------
+
+/// Gives the external verification harness access to the private request
+/// handler and to the private compression flag. Not compiled by default.
+#[cfg(feature = "verif-hooks")]
+pub mod verif_hooks {
+    use super::*;
+
+    /// `Server::handle_request` (its error type is `Infallible`).
+    pub async fn handle_request(
+        req: Request<Body>,
+        metrics: &metrics::Collection,
+        resources: &Resources,
+    ) -> Response<Body> {
+        match Server::handle_request(req, metrics, resources).await {
+            Ok(res) => res,
+            Err(never) => match never {},
+        }
+    }
+
+    /// What `Server::run` does with the configured `compress_responses`.
+    pub fn set_compress_responses(resources: &mut Resources, on: bool) {
+        resources.compress_responses = on;
+    }
+}
